@@ -35,6 +35,43 @@ def gen_case(rng, tier):
     return {"w1": w1, "w2": w2, "m1": m1, "m2": m2, "seed": rng.randrange(1 << 30), "long": long_pool is not None}
 
 
+def path_nodes(db, root, key):
+    """Independent of the trie code: the nodes met when following `key` from `root` in the complete database (each as a
+    raw nested list), embedded ones included. Uses only rlp and the hex-prefix convention."""
+    import rlp
+    nibs = [x for b in key for x in (b >> 4, b & 15)]
+    out = []
+    ref = root
+    from trie.constants import BLANK_NODE_HASH
+    if root == BLANK_NODE_HASH:
+        return out
+    while True:
+        if isinstance(ref, (bytes, bytearray)):
+            if len(ref) == 0:
+                return out
+            if len(ref) < 32 or bytes(ref) not in db:
+                return out
+            node = rlp.decode(db[bytes(ref)])
+        else:
+            node = ref
+        out.append(HX.raw_obs(node))
+        if len(node) == 17:
+            if not nibs:
+                return out
+            ref, nibs = node[nibs[0]], nibs[1:]
+        else:
+            hp = node[0]
+            flag = hp[0] >> 4
+            pn = [x for b in hp[1:] for x in (b >> 4, b & 15)]
+            if flag & 1:
+                pn = [hp[0] & 15] + pn
+            if flag & 2:          # leaf
+                return out
+            if nibs[: len(pn)] != pn:
+                return out
+            ref, nibs = node[1], nibs[len(pn):]
+
+
 def build_ops(case, tier):
     """phase 1: run the writes and get the proofs on the implementation; phase 2: the full op list"""
     from trie import HexaryTrie
@@ -57,7 +94,7 @@ def build_ops(case, tier):
     for k in keys:
         proof = [HX.raw_obs(n) for n in t1.get_proof(k)]
         ops.append(("proof", k))
-        meta.append((k, r1, "proof"))
+        meta.append((k, r1, "proof", path_nodes(t1.db, r1, k)))
         variants = [("true", proof, r1)]
         for i in range(len(proof)):
             variants.append(("drop", proof[:i] + proof[i + 1:], r1))
@@ -89,10 +126,13 @@ def oracle(case, ops, meta, outs, r1, r2):
     for op, mt, out in zip(ops, meta, outs):
         if mt is None:
             continue
-        k, root, kind = mt
+        k, root, kind = mt[:3]
         if kind == "proof":
             if isinstance(out, Exc):
                 return f"get_proof raised {out!r} on a complete database", stats
+            on_path = mt[3]
+            if any(n not in on_path for n in out) or len(out) > len(on_path):
+                return f"get_proof({k.hex()}) contains a node that is not on the key's path (or a node twice)", stats
             if len(out) >= 2:
                 stats["multi"] += 1
             continue
@@ -122,6 +162,8 @@ def check(tier, seed):
     cases = corpus() + [gen_case(rng, tier) for _ in range(n)]
     runs, outs_list = [], []
     for case in cases:
+        if C.enough_violations():
+            break
         ops, meta, r1, r2 = build_ops(case, tier)
         outs, t, backing = HX.run_history(False, ops)
         R.evaluations += sum(1 for m in meta if m and m[2] != "proof")
@@ -168,7 +210,16 @@ def replay(payload):
     for o in ops:
         HX.apply_model(m, o)
     bad = None
+    from trie import HexaryTrie as _HT
+    tt = _HT({})
+    for w in ops:
+        if w[0] in ("set", "del"):
+            HX.step(tt, w, tt.db)
     for o, out in zip(ops, outs):
+        if o[0] == "proof" and not isinstance(out, Exc):
+            on_path = path_nodes(tt.db, bytes(tt.root_hash), o[1])
+            if any(n not in on_path for n in out) or len(out) > len(on_path):
+                bad = f"get_proof({o[1].hex()}) contains a node that is not on the key's path"
         if o[0] == "fromproof" and out != Exc(4):
             from trie import HexaryTrie
             t = HexaryTrie({})
